@@ -121,6 +121,8 @@ pub(crate) struct Gen<'a> {
     no_settle: bool,
     /// all pre-registered connections join one channel in the set-up
     pub big_channel: bool,
+    /// some lines carry another user's full source as prefix
+    pub spoof: bool,
 }
 
 /// the short form of a full list mask, if it has one: n!*@* -> n, n!*@h -> n@h, n!u@* -> n!u
@@ -156,7 +158,7 @@ impl<'a> Gen<'a> {
     pub(crate) fn new(seed: u64, cfg: &SimConfig, prof: &'a Profile) -> Gen<'a> {
         let mut r = Rng::new(seed);
         let n = r.range(prof.conns.0, prof.conns.1);
-        Gen { r, m: Model::new(cfg), prof, actions: vec![], uniq: 0, n_conns_target: n, exclude: vec![], last_labels: vec![], last_conn: None, last_line: String::new(), follow_rate: (1, 3), frag: false, pipe: false, no_settle: false, big_channel: false }
+        Gen { r, m: Model::new(cfg), prof, actions: vec![], uniq: 0, n_conns_target: n, exclude: vec![], last_labels: vec![], last_conn: None, last_line: String::new(), follow_rate: (1, 3), frag: false, pipe: false, no_settle: false, big_channel: false, spoof: false }
     }
 
     fn text(&mut self) -> String {
@@ -516,6 +518,18 @@ impl<'a> Gen<'a> {
     }
 
     pub(crate) fn say(&mut self, c: usize, line: &str) -> bool {
+        if self.spoof && self.r.chance(1, 12) && !line.starts_with(':') {
+            // the client puts somebody else's full source in front of its line: the server never takes a client's word for it
+            let me = self.m.conns.get(c).and_then(|x| x.nick.clone()).unwrap_or_default();
+            let other: Option<String> = self.m.users.values().find(|u| u.nick != me && !u.nick.contains('!') && !u.nick.contains('@')).map(|u| u.src());
+            // (only sources that are well formed for this server: no ':', and '!' before '@' - anything else is a syntax
+            // error of the line, which is C13's business, not a spoofing attempt)
+            let other = other.filter(|s| !s.contains(':') && !s.contains(' ') && matches!((s.find('!'), s.find('@')), (Some(a), Some(b)) if a < b));
+            if let Some(src) = other {
+                let l2 = format!(":{} {}", src, line);
+                return self.emit(vec![Action::line(c, &l2)]);
+            }
+        }
         if self.frag && self.r.chance(1, 3) {
             // the line arrives in two segments (possibly cut inside a multi-byte character or between CR and LF),
             // sometimes with a pause in which the server sees only the first part
@@ -1062,6 +1076,8 @@ impl<'a> Gen<'a> {
                     0 | 1 => format!("TOPIC {} :", ch),
                     // a topic of blanks only is a topic (not the empty topic that clears it)
                     2 => format!("TOPIC {} :{}", ch, ["   ", " ", "\t"][self.r.below(3)]),
+                    // beyond the advertised TOPICLEN (the server accepts it): what is announced is what is kept
+                    3 if self.r.chance(1, 3) => format!("TOPIC {} :{}{}", ch, self.text(), "T".repeat(self.r.range(990, 1500))),
                     _ => format!("TOPIC {} :{}", ch, self.text()),
                 };
                 self.say(c, &line)
